@@ -2,7 +2,7 @@
 
 REAL_NATIVE = ["native.Package", "native.CombinedPackage", "native.CombinedImporter", "native.Packages"]
 
-HOOK_COMMITS = ["65a4ceb"]
+HOOK_COMMITS = ["65a4ceb", "6474106", "0126525"]
 
 ENGINES = [
     {"name": "detsim", "path": "/verif/maporder + /verif/sim/props/c30", "serves_properties": ["C30"],
